@@ -154,6 +154,16 @@ func run(c *vf.Ctx) {
 			case 0:
 				h.Blocks[bi] = append(h.Blocks[bi], hist.TxSpec{Signer: u, Gas: 80_000_000, Fee: 1_000_000, Label: "grow-limited",
 					Msgs: []hist.MsgSpec{{Kind: "call", Pkg: hist.StorePath, Func: "BigGrow", Args: []string{fmt.Sprint(1 + rng.IntN(25))}, MaxDep: int64(50_000 + rng.IntN(200_000))}}})
+			case 3:
+				// one message grows two realms by about the same amount; the limit is drawn around the
+				// cost of one and of both (it applies to the message as a whole)
+				n := 1 + rng.IntN(20)
+				h.Blocks[bi] = append(h.Blocks[bi], hist.TxSpec{Signer: u, Gas: 120_000_000, Fee: 1_000_000, Label: "grow-both-limited",
+					Msgs: []hist.MsgSpec{{Kind: "call", Pkg: hist.PeerPath, Func: "GrowBoth", Args: []string{fmt.Sprint(n)}, MaxDep: int64(n) * int64(2000+rng.IntN(14000))}}})
+				if rng.IntN(3) == 0 {
+					h.Blocks[bi] = append(h.Blocks[bi], hist.TxSpec{Signer: u, Gas: 80_000_000, Fee: 1_000_000, Label: "shrink-pad",
+						Msgs: []hist.MsgSpec{{Kind: "call", Pkg: hist.PeerPath, Func: "ShrinkPad", Args: []string{fmt.Sprint(1 + rng.IntN(30))}}}})
+				}
 			case 1:
 				h.Blocks[bi] = append(h.Blocks[bi], hist.TxSpec{Signer: u, Gas: 80_000_000, Fee: 1_000_000, Label: "shrink",
 					Msgs: []hist.MsgSpec{{Kind: "call", Pkg: hist.StorePath, Func: "BigShrink", Args: []string{fmt.Sprint(1 + rng.IntN(30))}}}})
